@@ -491,6 +491,25 @@ fn grid_cases(envir: &Envir) -> Vec<Case> {
     ] {
         v.push(Case { e: E::Sym(text.to_string()), text: text.to_string(), exp, family: format!("literal/{}", crate::gen::spell::radix_name(text)) });
     }
+    // a symbol plus or minus a number that takes the result out of 64 bits: an error like any other overflow,
+    // whichever kind of symbol it is (a label behind code, the location counter, an .equ, a .set) and whichever side
+    for sym in ["Lbl_Second", "lbl_after", "pc", "EqA", "eq_fwd", "SetV", "lbl_first"] {
+        for (shape, lit) in [("{s} + {l}", i64::MAX), ("{s} + {l}", i64::MAX - 1), ("{l} + {s}", i64::MAX), ("{s} - {l}", i64::MIN + 1), ("{s} + {l}", i64::MAX - 2), ("{s} * {l}", i64::MAX / 2 + 1), ("-{l} - {s} - 2", i64::MAX)] {
+            let lt = if lit < 0 { format!("(-{})", (lit as i128).abs()) } else { lit.to_string() };
+            let text = shape.replace("{s}", sym).replace("{l}", &lt);
+            let e = match shape {
+                "{s} + {l}" => E::bin(Bin::Add, E::Sym(sym.into()), E::lit(lit)),
+                "{l} + {s}" => E::bin(Bin::Add, E::lit(lit), E::Sym(sym.into())),
+                "{s} - {l}" => E::bin(Bin::Sub, E::Sym(sym.into()), E::lit(lit)),
+                "{s} * {l}" => E::bin(Bin::Mul, E::Sym(sym.into()), E::lit(lit)),
+                _ => E::bin(Bin::Sub, E::bin(Bin::Sub, E::un(crate::refmodel::expr::Un::Neg, E::lit(lit)), E::Sym(sym.into())), E::lit(2)),
+            };
+            let e = if sym == "pc" { replace_pc(e) } else { e };
+            if let Some(exp) = expr::eval(&e, &env_for(envir, 1), envir.pc_base) {
+                v.push(Case { e, text, exp, family: format!("symbol-and-huge-number/{}", if sym == "pc" { "pc" } else if sym.to_lowercase().starts_with("lbl") { "label" } else if sym == "SetV" { "set" } else { "equ" }) });
+            }
+        }
+    }
     // a character literal stands for its code, whatever the character: controls, blanks of every kind, wide ones
     let specials = [0x1680u32, 0x180e, 0x2000, 0x2001, 0x2009, 0x200a, 0x200b, 0x2028, 0x2029, 0x202f, 0x205f, 0x3000, 0xfeff, 0xfffd, 0xffff, 0x10000, 0x1f600, 0x10ffff];
     for cp in (1u32..0x250).chain(specials) {
@@ -506,6 +525,15 @@ fn grid_cases(envir: &Envir) -> Vec<Case> {
         }
     }
     v
+}
+
+fn replace_pc(e: E) -> E {
+    match e {
+        E::Sym(s) if s == "pc" => E::Pc,
+        E::Bin(op, a, b) => E::Bin(op, Box::new(replace_pc(*a)), Box::new(replace_pc(*b))),
+        E::Un(op, a) => E::Un(op, Box::new(replace_pc(*a))),
+        other => other,
+    }
 }
 
 fn pair_cases(envir: &Envir) -> Vec<Case> {
